@@ -147,6 +147,8 @@ def module_text(ir, k, nstmts=None):
     out.append("var store = [0]; var pushit = store.push;")
     out.append("#[constructor(new)] class Acc { fn add(self, x) { self.n = self.n + x; return self.n; } } var acc0 = Acc.new(); acc0.n = 0; var addit = acc0.add;")
     out.append("fn getg() { return gv; }")
+    # a second global under a name that differs per module (so that no coincidence of name hashes can hide a stale look-up)
+    out.append("var aux%d = %d; fn getaux() { return aux%d; }" % (k, k * 3, k))
     out.append("fn setg(x) { gv = x; return gv; }")
     out.append('fn peek() { var r = "leak"; try { r = main_only; } catch e { r = type(e); } return r; }')
     out.append('fn peek_class() { var r = "leak"; try { r = MainOnlyClass; r = "leak"; } catch e { r = type(e); } return r; }')
@@ -217,6 +219,7 @@ def render(ir):
         e('fn finload%d() { import "pl%d"; print(("ev", "fin-imp", %d, pl%d.getg())); }' % (i, i, i, i))
         e('fn finimp%d() { try { import "nope/missing%d"; } finally { finload%d(); } return "fell-through"; }' % (i, i, i))
     e("var finimps = [finimp0, finimp1];")
+    e("var auxset = [%s];" % ", ".join("|m, x| { var b = m.getaux(); m.aux%d = x; return (b, m.getaux(), m.aux%d); }" % (k, k) for k in range(n)))
     e("var imps = [%s];" % ", ".join("imp%d" % k for k in range(n)))
     e("var mods = [%s];" % ", ".join("nil" for _ in range(n)))
     e("var fibs = [%s];" % ", ".join("nil" for _ in range(n)))
@@ -235,7 +238,8 @@ def render(ir):
     e('    if mods[k] != nil {')
     e('      if v % 2 == 0 { print(("ev", "setg", k, mods[k].setg(v))); }')
     # ... or the importer assigns the module's global through the module object: the module's own code must see it
-    e('      else { var before = mods[k].getg(); mods[k].gv = v; print(("ev", "setattr", k, before, mods[k].getg(), mods[k].gv)); }')
+    e('      else if v % 4 == 1 { var before = mods[k].getg(); mods[k].gv = v; print(("ev", "setattr", k, before, mods[k].getg(), mods[k].gv)); }')
+    e('      else { print(("ev", "setaux", k, auxset[k](mods[k], v))); }')
     e('    } else { print(("ev", "skip")); }')
     e("  } else if a == 5 {")
     e('    if mods[k] != nil { try { print(("ev", "lazy", k, mods[k].lazy())); } catch e { print(("ev", "lazy", k, type(e))); } } else { print(("ev", "skip")); }')
@@ -315,6 +319,7 @@ def model(ir, tape, faults, chooser=None):
     mods = [None] * n             # driver's record
     fibs = [None] * n             # None | generator (suspended) | "done"
     pl_loaded = [False, False]
+    aux = [k_ * 3 for k_ in range(n)]
 
     def pick(m, purpose=None):
         if chooser is not None:
@@ -451,10 +456,14 @@ def model(ir, tape, faults, chooser=None):
                     if v % 2 == 0:
                         gv[k] = v
                         ev.append([s("setg"), num(k), num(v)])
-                    else:
+                    elif v % 4 == 1:
                         probes.inc("module_global_assigned_through_the_module_object")
                         ev.append([s("setattr"), num(k), num(gv[k]), num(v), num(v)])
                         gv[k] = v
+                    else:
+                        probes.inc("module_global_assigned_through_the_module_object")
+                        ev.append([s("setaux"), num(k), tup(num(aux[k]), num(v), num(v))])
+                        aux[k] = v
                 else:
                     ev.append([s("skip")])
             elif a == 5:
